@@ -7,6 +7,7 @@ says which token sequences are dangerous; the theorem is that the guard's
 single-pass scan flags exactly those, for every SQL text.
 -/
 import RqModel.Model.Pragma
+import RqModel.Lemmas.Pragma
 import RqModel.Gen.StoreGuards
 namespace C15
 open RqModel RqModel.Pragma
@@ -226,6 +227,55 @@ theorem guard_complete (t : List Nat) : Pragma.guard t = true ↔ Dangerous (lex
     · exact Or.inr ⟨pre, stmt, hts, (headDanger_iff _).2 h⟩
 
 
+
+/-! ### letter case, leading filler and position do not matter -/
+
+/-- ∀ SQL text: the guard's verdict depends only on the ASCII-lower-cased text, so
+two texts that differ only in letter case get the same verdict. -/
+theorem guard_case_insensitive (t1 t2 : List Nat) (h : t1.map lower = t2.map lower) :
+    Pragma.guard t1 = Pragma.guard t2 := by
+  unfold Pragma.guard
+  rw [← lex_lower t1, ← lex_lower t2, h]
+
+/-- whitespace, `-- …` line comments and `/* … */` block comments (the latter without
+a star inside, for simplicity of the statement) in any number and order -/
+inductive Filler : List Nat → Prop where
+  | nil : Filler []
+  | space (c : Nat) (rest : List Nat) : isSpace c = true → Filler rest → Filler (c :: rest)
+  | line (body rest : List Nat) : 10 ∉ body → Filler rest → Filler (45 :: 45 :: (body ++ 10 :: rest))
+  | block (body rest : List Nat) : 42 ∉ body → Filler rest → Filler (47 :: 42 :: (body ++ 42 :: 47 :: rest))
+
+/-- ∀ filler, ∀ SQL text: filler in front of a text changes neither its tokens nor
+the guard's verdict. -/
+theorem leading_filler_invisible (f : List Nat) (hf : Filler f) (t : List Nat) :
+    lex (f ++ t) = lex t ∧ Pragma.guard (f ++ t) = Pragma.guard t := by
+  have hl : lex (f ++ t) = lex t := by
+    induction hf with
+    | nil => rfl
+    | space c rest hc _ ih => rw [List.cons_append, lex_space c hc, ih]
+    | line body rest hb _ ih =>
+      have : (45 :: 45 :: (body ++ 10 :: rest)) ++ t = 45 :: 45 :: (body ++ 10 :: (rest ++ t)) := by simp
+      rw [this, lex_line_comment body hb, ih]
+    | block body rest hb _ ih =>
+      have : (47 :: 42 :: (body ++ 42 :: 47 :: rest)) ++ t = 47 :: 42 :: (body ++ 42 :: 47 :: (rest ++ t)) := by simp
+      rw [this, lex_block_comment body hb, ih]
+  exact ⟨hl, by unfold Pragma.guard; rw [hl]⟩
+
+/-- ∀ token sequences: a statement the guard refuses is refused wherever it stands
+after a `;` in a longer text. -/
+theorem position_independent (before stmt : List Tok) (h : scan true stmt = true) :
+    scan true (before ++ Tok.punct 59 :: stmt) = true := by
+  rw [scan_iff] at h ⊢
+  rcases h with ⟨_, hd⟩ | ⟨pre, s, hs, hd⟩
+  · exact Or.inr ⟨before, stmt, rfl, hd⟩
+  · exact Or.inr ⟨before ++ Tok.punct 59 :: pre, s, by simp [hs], hd⟩
+
+example : Filler (bytesOf " \t-- x\n/* c */\n") := by
+  apply Filler.space 32 _ (by decide)
+  apply Filler.space 9 _ (by decide)
+  exact Filler.line (bytesOf " x") _ (by decide)
+    (Filler.block (bytesOf " c ") _ (by decide) (Filler.space 10 _ (by decide) Filler.nil))
+
 /-! ### the guard is applied to every request (regenerated facts) -/
 
 /-- fact obligation: in Store.Execute, Store.Query and Store.Request the pragma
@@ -240,7 +290,12 @@ theorem guard_applied_everywhere :
        ("Request", "s.db.QueryWithContext"), ("Request", "s.raft.Apply")] ∧
     Gen.StoreGuards.sinks.all (fun s => s.2.2.head? == some "guard:err := p.Check(); err != nil => err") = true ∧
     Gen.StoreGuards.executeHelperSinks = ["s.raft.Apply"] ∧
-    Gen.StoreGuards.pragmaCheckCoversEveryStatement = true := by decide
+    Gen.StoreGuards.pragmaCheckCoversEveryStatement = true ∧
+    -- Check is exactly: nil receiver passes; every statement, unconditionally, through the guard
+    Gen.StoreGuards.pragmaCheckBody =
+      ["if p == nil { return nil }", "for _, stmt := range p.Statements", "return nil"] ∧
+    Gen.StoreGuards.pragmaCheckLoopBody =
+      ["if sql.IsBreakingPragma(stmt.Sql) { return fmt.Errorf(\"disallowed pragma\") }"] := by decide
 
 /-- fact obligation: the model's critical names are the keys of db.BreakingPragmas -/
 theorem critical_names_match_source :
@@ -259,7 +314,8 @@ theorem known_bypasses_refused :
      "PRAGMA 'synchronous'=1", "PRAGMA `synchronous`=3", "PRAGMA [synchronous]=1",
      "PRAGMA synchronous -- x\n = 3", ";;PRAGMA synchronous=1", "pragma\tSYNCHRONOUS\n=\r1",
      "CREATE TABLE x(a); PRAGMA query_only=1", "PRAGMA \"main\".\"query_only\"(true)",
-     "PRAGMA journal_mode=DELETE", "PRAGMA wal_checkpoint", "PRAGMA main.wal_checkpoint"].all refused = true := by
+     "PRAGMA journal_mode=DELETE", "PRAGMA wal_checkpoint", "PRAGMA main.wal_checkpoint",
+     "PRAGMA main\x0c\x0b.synchronous(1)", "PRAGMA \x0bsynchronous = 2"].all refused = true := by
   decide +kernel
 
 /-- the guard does not refuse reads of the settings, quoted text that merely
